@@ -540,3 +540,380 @@ def factoryparams_text(entries):
     out.append("end NanoVerif.Gen.FactoryParams")
     out.append("")
     return "\n".join(out)
+
+
+# --- typed reads of parameters in the library (Gen/ParamReads.lean) ----------------------------------------
+
+READ_RE = re.compile(r"\.\s*value(_pair)?\s*<\s*([A-Za-z_][A-Za-z_0-9:]*)\s*>\s*\(\s*\)")
+LIT_RE = re.compile(r'"((?:[^"\\]|\\.)*)"')
+
+
+def _match_open(text, close):
+    """index of the `(` matching the `)` at text[close]"""
+    depth = 0
+    i = close
+    while i >= 0:
+        if text[i] == ")":
+            depth += 1
+        elif text[i] == "(":
+            depth -= 1
+            if depth == 0:
+                return i
+        i -= 1
+    return -1
+
+
+def scan_reads(repo):
+    """every `<expr>.parameter(<name expression>).value<T>()` / `.value_pair<T>()` of src/ and include/ ->
+    ([(exact, name, pair, type, site)], [unresolved sites]); include/nano/parameter.h (the implementation of the reads) and
+    include/nano/configurable.h are left out"""
+    uses, unresolved = [], []
+    for top in ("include", "src"):
+        for root, _, names in sorted(os.walk(os.path.join(repo, top))):
+            for fn in sorted(names):
+                if not fn.endswith((".h", ".cpp", ".hpp")):
+                    continue
+                path = os.path.join(root, fn)
+                rel = os.path.relpath(path, repo)
+                if rel in ("include/nano/parameter.h", "include/nano/configurable.h"):
+                    continue
+                raw = open(path, errors="replace").read()
+                # comments out, string literals kept
+                text = re.sub(r"//[^\n]*", lambda m: " " * len(m.group(0)), raw)
+                text = re.sub(r"/\*.*?\*/", lambda m: re.sub(r"[^\n]", " ", m.group(0)), text, flags=re.S)
+                for m in READ_RE.finditer(text):
+                    line = text.count("\n", 0, m.start()) + 1
+                    site = f"{rel}:{line}"
+                    pair, ty = bool(m.group(1)), m.group(2)
+                    j = m.start() - 1
+                    while j >= 0 and text[j].isspace():
+                        j -= 1
+                    if j < 0 or text[j] != ")":
+                        # `param.value<T>()` on a parameter_t variable / m_value of a range: only inside parameter.h
+                        unresolved.append(site + " (receiver is not a call)")
+                        continue
+                    o = _match_open(text, j)
+                    head = text[max(0, o - 12):o]
+                    if o < 0 or not re.search(r"\bparameter\s*$", head):
+                        unresolved.append(site + " (receiver is not parameter(...))")
+                        continue
+                    arg = text[o + 1:j].strip()
+                    lits = LIT_RE.findall(arg)
+                    if LIT_RE.fullmatch(arg):
+                        uses.append((True, lits[0], pair, ty, site))
+                    elif lits and arg.rstrip(" )").endswith('"' + lits[-1] + '"'):
+                        uses.append((False, lits[-1], pair, ty, site))
+                    else:
+                        unresolved.append(site + f" (name expression `{arg[:60]}`)")
+    return uses, unresolved
+
+
+def rkind(ty):
+    return {"int": ".i32", "int32_t": ".i32", "uint64_t": ".u64", "size_t": ".u64", "int64_t": ".i64", "tensor_size_t": ".i64",
+            "scalar_t": ".scalar", "string_t": ".string"}.get(ty, ".enum")
+
+
+def all_param_names(entries):
+    names = []
+    def walk(tree):
+        for n, _ in tree[1]:
+            names.append(n)
+        for _, k in tree[2]:
+            walk(k)
+    for e in entries or []:
+        for n, _ in e[3]:
+            names.append(n)
+    for _, tree in getattr(entries, "owners", []):
+        walk(tree)
+    return sorted(set(names))
+
+
+def paramreads_text(repo, entries=None):
+    """reads whose name is an expression ending in a literal (`basename + "lsearch_beta"`) are resolved against the parameter
+    names of the factory dump: one row per registered parameter whose name ends in the literal"""
+    uses, unresolved = scan_reads(repo)
+    known = all_param_names(entries)
+    distinct = {}
+    for ex, name, pair, ty, site in uses:
+        if ex:
+            distinct.setdefault((name, pair, ty), []).append(site)
+        else:
+            for full in known:
+                if full.endswith(name):
+                    distinct.setdefault((full, pair, ty), []).append(site + " …" + name)
+    out = ["-- GENERATED by tools/props/c19.py from the sources under include/ and src/ — do not edit",
+           "import NanoVerif.Model.ParamNarrow",
+           "/-! every typed read `parameter(<name>).value<T>()` / `.value_pair<T>()` of the library: the parameter name (a name",
+           "    given as an expression ending in a literal is resolved against the registered names of the factory dump), pair",
+           "    read?, the type, what the conversion to that type does, the first site (+ how many more).",
+           f"    {len(uses)} reads resolved ({len(distinct)} distinct rows), {len(unresolved)} unresolved (an unresolved read fails the",
+           "    static check of C19). -/",
+           "namespace NanoVerif.Gen.ParamReads",
+           "open NanoVerif.Param",
+           "",
+           "def reads : List ReadUse := ["]
+    rows = []
+    for (name, pair, ty), sites in distinct.items():
+        where = sites[0] + (f" (+{len(sites) - 1})" if len(sites) > 1 else "")
+        rows.append(f"  ⟨{lean_str(name)}, {'true' if pair else 'false'}, {lean_str(ty)}, {rkind(ty)}, {lean_str(where)}⟩")
+    out.append(",\n".join(rows) + "]")
+    out += ["", "end NanoVerif.Gen.ParamReads", ""]
+    return "\n".join(out)
+
+
+# --- clonability: classes, data members, clone() bodies, user-provided copy operations ---------------------
+
+def _strip_comments(text):
+    text = re.sub(r"//[^\n]*", lambda m: " " * len(m.group(0)), text)
+    return re.sub(r"/\*.*?\*/", lambda m: re.sub(r"[^\n]", " ", m.group(0)), text, flags=re.S)
+
+
+def _blank_strings(text):
+    return re.sub(r'"(?:[^"\\\n]|\\.)*"', lambda m: '"' + " " * (len(m.group(0)) - 2) + '"', text)
+
+
+def _close(text, i, op="{", cl="}"):
+    """index of the bracket closing the one at text[i]"""
+    depth = 0
+    while i < len(text):
+        c = text[i]
+        if c == op:
+            depth += 1
+        elif c == cl:
+            depth -= 1
+            if depth == 0:
+                return i
+        i += 1
+    return -1
+
+
+CLASS_RE = re.compile(r"\b(class|struct)\s+(?:NANO_PUBLIC\s+|alignas\s*\([^)]*\)\s*)*((?:[A-Za-z_]\w*::)*[A-Za-z_]\w*)\s*(?:final\s*)?(:(?!:)[^{;]*)?\{")
+ACCESS_RE = re.compile(r"\b(public|private|protected)\s*:")
+
+
+def _top_statements(body):
+    """the statements of a class body at nesting depth 0: [(text, inline body or None)]; nested class definitions are returned
+    as ("class …", body)"""
+    out, i, start = [], 0, 0
+    n = len(body)
+    while i < n:
+        c = body[i]
+        if c == "(":
+            i = _close(body, i, "(", ")") + 1
+            continue
+        if c == "{":
+            j = _close(body, i)
+            head = body[start:i].strip()
+            # a brace initialiser of a data member (`tensor_size_t m_x{0};`) is part of the statement
+            k = j + 1
+            while k < n and body[k].isspace():
+                k += 1
+            if k < n and body[k] in ";," and "(" not in re.sub(r"<[^<>]*>", "", head) and not re.match(r"\s*(class|struct|enum|union)\b", head):
+                i = j + 1
+                continue
+            out.append((head, body[i + 1:j]))
+            i = j + 1
+            if k < n and body[k] == ";":
+                i = k + 1
+            start = i
+            continue
+        if c == ";":
+            text = body[start:i].strip()
+            if text:
+                out.append((text, None))
+            start = i + 1
+        i += 1
+    return out
+
+
+def _bases(spec):
+    if not spec:
+        return []
+    out = []
+    for part in split_top(spec.lstrip(":"), ","):
+        part = re.sub(r"\b(public|private|protected|virtual)\b", "", part).strip()
+        part = re.sub(r"<.*>", "", part, flags=re.S).strip()
+        if part:
+            out.append(part.split("::")[-1])
+    return out
+
+
+MEMBER_SKIP = re.compile(r"^\s*(using|typedef|friend|static|enum|template|constexpr|inline|explicit|virtual|operator|class|struct|union|"
+                         r"static_assert|NANO_PUBLIC)\b")
+
+
+def parse_classes(text, where, prefix="", out=None):
+    """-> {qualified name: dict(where, bases, members[(type, name)], clone, copy_ctor, copy_assign)}; clone / copy_*: None (not
+    declared), 'pure', 'default', 'delete', 'decl' (defined elsewhere) or ('inline', body)"""
+    out = {} if out is None else out
+    pos = 0
+    while True:
+        m = CLASS_RE.search(text, pos)
+        if not m:
+            break
+        # `enum class x {` is not a class; `class x;` forward declarations do not match (no brace)
+        before = text[max(0, m.start() - 8):m.start()]
+        if re.search(r"\benum\s*$", before) or re.search(r"<\s*$|,\s*$", before):
+            pos = m.end()
+            continue
+        o = m.end() - 1
+        c = _close(text, o)
+        if c < 0:
+            break
+        name = prefix + m.group(2)
+        body = text[o + 1:c]
+        short_name = m.group(2).split("::")[-1]
+        info = dict(where=where, bases=_bases(m.group(3)), members=[], clone=None, copy_ctor=None, copy_assign=None)
+        short = short_name
+        flat = ACCESS_RE.sub(" ", body)
+        for stmt, inl in _top_statements(flat):
+            s1 = " ".join(stmt.split())
+            if re.match(r"(class|struct)\b", s1) and inl is not None:
+                parse_classes(s1 + "{" + inl + "}", where, name + "::", out)
+                continue
+            if re.search(r"\bclone\s*\(\s*\)\s*const\b", s1):
+                if re.search(r"=\s*0\s*$", s1):
+                    info["clone"] = "pure"
+                else:
+                    info["clone"] = ("inline", inl) if inl is not None else "decl"
+                continue
+            cm = re.search(r"(?:^|[\s&])" + re.escape(short) + r"\s*\(\s*const\s+" + re.escape(short) + r"(?:<[^()]*>)?\s*&\s*\w*\s*\)", s1)
+            if cm and "operator" not in s1:
+                if re.search(r"=\s*default\s*$", s1):
+                    info["copy_ctor"] = "default"
+                elif re.search(r"=\s*delete\s*$", s1):
+                    info["copy_ctor"] = "delete"
+                else:
+                    info["copy_ctor"] = ("inline", s1 + "{" + inl + "}") if inl is not None else "decl"
+                continue
+            am = re.search(r"operator\s*=\s*\(\s*const\s+" + re.escape(short) + r"(?:<[^()]*>)?\s*&\s*\w*\s*\)", s1)
+            if am:
+                if re.search(r"=\s*default\s*$", s1):
+                    info["copy_assign"] = "default"
+                elif re.search(r"=\s*delete\s*$", s1):
+                    info["copy_assign"] = "delete"
+                else:
+                    info["copy_assign"] = ("inline", s1 + "{" + inl + "}") if inl is not None else "decl"
+                continue
+            if inl is not None or MEMBER_SKIP.match(s1) or re.search(r"\boperator\b", s1):
+                continue
+            core = re.sub(r"\{[^{}]*\}\s*$", "", s1).strip()       # brace initialiser
+            core = re.sub(r"=[^=]*$", "", core).strip() if "=" in core and "(" not in core.split("=")[0] else core
+            if "(" in re.sub(r"<[^<>]*(<[^<>]*>)*[^<>]*>", "", core):
+                continue                                             # a function declaration
+            mm = re.match(r"^(?:mutable\s+)?(.+?)[\s\*&]+(\w+)\s*(\[[^\]]*\])?$", core)
+            if mm and not re.match(r"^(return|delete|throw)\b", core):
+                ty = core[:mm.start(2)].strip()
+                info["members"].append((ty, mm.group(2)))
+        out[name] = info
+        pos = o + 1 if False else c + 1
+    return out
+
+
+def scan_clones(repo):
+    """-> (classes, definitions): classes from every header and source file; definitions = {(class, what): body text} for the
+    out-of-line `C::clone() const`, `C::C(const C&)`, `C::operator=(const C&)`"""
+    classes, defs = {}, {}
+    for top in ("include", "src"):
+        for root, _, names in sorted(os.walk(os.path.join(repo, top))):
+            for fn in sorted(names):
+                if not fn.endswith((".h", ".cpp", ".hpp")):
+                    continue
+                path = os.path.join(root, fn)
+                rel = os.path.relpath(path, repo)
+                text = _blank_strings(_strip_comments(open(path, errors="replace").read()))
+                for k, v in parse_classes(text, rel).items():
+                    # a class defined twice under one name (anonymous namespaces of two files): keep both
+                    key = k if k not in classes else f"{k}@{rel}"
+                    classes[key] = v
+                for m in re.finditer(r"\b([A-Za-z_]\w*)\s*(<[^<>;{}()]*>)?\s*::\s*clone\s*\(\s*\)\s*const\s*\{", text):
+                    o = m.end() - 1
+                    defs[(m.group(1), "clone")] = (text[o + 1:_close(text, o)], rel)
+                for m in re.finditer(r"\b([A-Za-z_]\w*)\s*(?:<[^<>;{}()]*>)?\s*::\s*([A-Za-z_]\w*)\s*\(\s*const\s+([A-Za-z_]\w*)\s*&\s*(\w*)\s*\)", text):
+                    if m.group(1) == m.group(2) == m.group(3):
+                        j = m.end()
+                        o = text.find("{", j)
+                        semi = text.find(";", j)
+                        if o < 0 or (0 <= semi < o):
+                            continue
+                        defs[(m.group(1), "copy_ctor")] = (text[j:_close(text, o) + 1], rel)
+                for m in re.finditer(r"\b([A-Za-z_]\w*)\s*(?:<[^<>;{}()]*>)?\s*::\s*operator\s*=\s*\(\s*const\s+([A-Za-z_]\w*)\s*&\s*(\w*)\s*\)\s*\{", text):
+                    if m.group(1) == m.group(2):
+                        o = m.end() - 1
+                        defs[(m.group(1), "copy_assign")] = (text[o:_close(text, o) + 1], rel)
+    return classes, defs
+
+
+def canonical_clone(cls, body):
+    b = re.sub(r"\s+", "", body or "")
+    return re.fullmatch(r"returnstd::make_unique<(\w+::)*" + re.escape(cls) + r"(<[^;]*>)?>\(\*this\);", b) is not None
+
+
+def clone_report(repo):
+    """-> dict(clonable=[class], noncanonical_clone={class: why}, user_copy={class: [what…]}, missing={class: [member…]},
+    suspicious={class: [(type, member)]}, problems=[str])"""
+    classes, defs = scan_clones(repo)
+    rep = dict(clonable=[], noncanonical_clone={}, user_copy={}, missing={}, suspicious={}, problems=[])
+    short = lambda k: k.split("@")[0].split("::")[-1]
+    by_short = {}
+    for k, v in classes.items():
+        by_short.setdefault(short(k), []).append(v)
+    # classes that implement clone()
+    for k, v in sorted(classes.items()):
+        c = v["clone"]
+        if c in (None, "pure"):
+            continue
+        name = short(k)
+        rep["clonable"].append(name)
+        body = c[1] if isinstance(c, tuple) else (defs.get((name, "clone")) or (None, None))[0]
+        if body is None:
+            rep["problems"].append(f"{name} ({v['where']}): clone() is declared but its definition was not found")
+        elif not canonical_clone(name, body):
+            rep["noncanonical_clone"][name] = " ".join(body.split())[:200]
+        if v["copy_ctor"] == "delete":
+            rep["problems"].append(f"{name} ({v['where']}): clone() of a class whose copy constructor is deleted")
+    # every class that is copied when a clonable object is: the clonable classes, their bases, the classes of their members
+    reach, todo = set(), list(rep["clonable"])
+    while todo:
+        n = todo.pop()
+        if n in reach or n not in by_short:
+            continue
+        reach.add(n)
+        for v in by_short[n]:
+            todo += v["bases"]
+            for ty, _ in v["members"]:
+                todo += re.findall(r"[A-Za-z_]\w*", ty)
+    # user-provided copy operations anywhere in the library (a reachable one matters, the others are listed too)
+    for k, v in sorted(classes.items()):
+        name = short(k)
+        for what in ("copy_ctor", "copy_assign"):
+            c = v[what]
+            if c in (None, "default", "delete"):
+                continue
+            text = c[1] if isinstance(c, tuple) else (defs.get((name, what)) or (None, None))[0]
+            rep["user_copy"].setdefault(name, []).append(what)
+            if text is None:
+                rep["problems"].append(f"{name} ({v['where']}): user-declared {what} whose definition was not found")
+                continue
+            flat = re.sub(r"\s+", " ", text)
+            lost = []
+            for ty, mname in v["members"]:
+                if not re.search(r"\b" + re.escape(mname) + r"\s*[({=]", flat) and not re.search(r"\b" + re.escape(mname) + r"\b\s*\.", flat) \
+                        and not re.search(r"std::swap\([^)]*\b" + re.escape(mname) + r"\b", flat) and "swap(" not in flat.replace(" ", ""):
+                    lost.append(mname)
+            for b in v["bases"]:
+                if not by_short.get(b):
+                    continue
+                if what == "copy_ctor" and not re.search(r"\b" + re.escape(b) + r"\s*(<[^()]*>)?\s*[({]\s*\w+\s*[)}]", flat):
+                    lost.append("base " + b)
+                if what == "copy_assign" and not re.search(r"\b" + re.escape(b) + r"\s*(<[^()]*>)?\s*::\s*operator\s*=\s*\(\s*\w+\s*\)", flat):
+                    lost.append("base " + b)
+            if lost:
+                rep["missing"].setdefault(name, []).extend(f"{what}: {m}" for m in lost)
+        if name in reach:
+            for ty, mname in v["members"]:
+                if re.search(r"shared_ptr\s*<|[\*]\s*$|[^&]&\s*$|\*\s*const\s*$", ty) and "unique_ptr" not in ty:
+                    rep["suspicious"].setdefault(name, []).append((ty, mname))
+    rep["reach"] = sorted(reach)
+    rep["classes"] = classes
+    return rep
